@@ -21,7 +21,7 @@ from .common import (Harness, canon_loc, cn, contains_parts, in_parts, is_raised
 M = "antismash.common.secmet.locations:"
 
 
-SHAPE_PARTS = {"s": 1, "j2": 2, "j3": 3, "o": 2, "b": 2}
+SHAPE_PARTS = {"s": 1, "j2": 2, "j3": 3, "o": 2, "b": 2, "o3": 3}
 
 
 def shape_vars(prefix, shape):
@@ -55,6 +55,12 @@ def shape_pre(prefix, shape, v, n=None):
         cs += [s1 == 0, e1 < s0]
         if n is not None:
             cs.append(e0 == n)
+    if shape == "o3":
+        # two exons before the origin and one after it: [s0,e0) [s1,n) + [0,e2)
+        (s0, e0), (s1, e1), (s2, e2) = parts
+        cs += [e0 < s1, s2 == 0, e2 < s0]
+        if n is not None:
+            cs.append(e1 == n)
     if shape == "b":
         # exons straddling the origin without touching it: join{[15:18), [1:4)}
         (s0, e0), (s1, e1) = parts
@@ -190,8 +196,9 @@ class Connect(Harness):
                  M + "_split_sections_around_origin", M + "_reduce_parts_to_location",
                  M + "location_bridges_origin", M + "split_origin_bridging_location",
                  "antismash.common.secmet.record:Record.connect_locations"]
-    bound = "K <= 3 (quick) / 4 (thorough) simple locations, optionally one origin-spanning; linear and circular"
-    outside = "K > 4; inputs with more than two parts"
+    bound = ("K <= 3 (quick) / 4 (thorough) simple locations, optionally one origin-spanning; a three-part origin-spanning location (two "
+             "exons before the origin) of either strand alone or with a simple location; linear and circular")
+    outside = "K > 4; other inputs with more than two parts"
     task_paths = 120
 
     def variants(self, tier):
@@ -204,6 +211,10 @@ class Connect(Harness):
             out.append({"shapes": ["o"] + ["s"] * (k), "circ": True})
             if k >= 1:
                 out.append({"shapes": ["s"] * k + ["o"], "circ": True})
+        # a spliced gene through the origin (two exons before it, one after), parts in the order of either strand
+        for strand in (1, -1):
+            out.append({"shapes": ["o3"], "circ": True, "strand": strand})
+            out.append({"shapes": ["o3", "s"], "circ": True, "strand": strand})
         return out
 
     def vars(self, var):
@@ -217,7 +228,7 @@ class Connect(Harness):
                      0 <= v["x"], v["x"] < v["n"])
 
     def run(self, var, v):
-        locs = [build("l%d" % i, sh, v) for i, sh in enumerate(var["shapes"])]
+        locs = [build("l%d" % i, sh, v, var.get("strand", 1)) for i, sh in enumerate(var["shapes"])]
         rec = mkrecord(v["n"], var["circ"])
         res = rec.connect_locations(locs)
         again = rec.connect_locations([res])
@@ -241,9 +252,17 @@ class Connect(Harness):
             clauses.append(("linear_exact_hull", L.And(len(res) == 1, res[0][0] == lo, res[0][1] == hi)))
         else:
             length = parts_len(res)
-            if "o" not in var["shapes"]:
+            if "o3" in var["shapes"]:
+                # a spliced gene through the origin says itself which way round it goes (its intron is not a gap to jump
+                # over): alone, its span is first exon start .. origin .. last exon end; the shortest-arc clauses do not apply
+                if var["shapes"] == ["o3"]:
+                    clauses.append(("span_follows_the_spliced_gene",
+                                    L.And(len(res) == 2, res[0][0] == v["l0s0"], res[0][1] == n, res[1][0] == 0, res[1][1] == v["l0e2"])))
+                return clauses
+            spanning = "o" in var["shapes"]
+            if not spanning:
                 clauses.append(("ring_not_longer_than_hull", length <= hi - lo))
-            if "o" in var["shapes"]:
+            if spanning:
                 # the span has to pass the origin anyway, so it must be the shortest arc doing so
                 clauses.append(("ring_minimal_when_an_input_spans_origin",
                                 L.And([L.Implies(cov, length <= ln) for ln, cov in covering_arcs(all_parts, n)])))
